@@ -19,6 +19,7 @@ Python builds objects, calls the API and projects observations to integers; ever
 TLA+ clause evaluated by TLC.
 """
 import os
+import re
 
 from .. import tlc
 from ..common import MachineryError, time_limit, ImplTimeout
@@ -27,12 +28,18 @@ from ..common import MachineryError, time_limit, ImplTimeout
 # real module).  Each contains deprecated features, features introduced in versions 2 and 3, and
 # is closed under the upgrade functions (checked by TLC: UpgradeWF).
 UNIVERSES = {
+    # quick tier: 6 features, 168 kinds, 28 224 ordered pairs
+    "U0": ["CONTINUOUS_NUMBERS", "NUMERIC_FLUENTS", "DISCRETE_TIME", "REAL_FLUENTS", "INT_TYPE_DURATIONS", "PROCESSES"],
+    # thorough tier: U1 = U0 + a plain version-1 feature (336 kinds, 112 896 pairs, all same-version triples);
+    # U2..U5 cover the remaining rules of upgrade_1_2
     "U1": ["NEGATIVE_CONDITIONS", "CONTINUOUS_NUMBERS", "NUMERIC_FLUENTS", "DISCRETE_TIME",
            "REAL_FLUENTS", "INT_TYPE_DURATIONS", "PROCESSES"],
-    "U2": ["DISCRETE_NUMBERS", "NUMERIC_FLUENTS", "ACTIONS_COST", "INT_FLUENTS",
-           "INT_NUMBERS_IN_ACTIONS_COST", "REAL_NUMBERS_IN_ACTIONS_COST", "EVENTS"],
-    "U3": ["CONTINUOUS_TIME", "OVERSUBSCRIPTION", "DISCRETE_NUMBERS", "REAL_TYPE_DURATIONS",
-           "INT_TYPE_DURATIONS", "INT_NUMBERS_IN_OVERSUBSCRIPTION", "REAL_NUMBERS_IN_OVERSUBSCRIPTION"],
+    "U2": ["CONTINUOUS_NUMBERS", "DISCRETE_NUMBERS", "NUMERIC_FLUENTS", "INT_FLUENTS", "REAL_FLUENTS", "EVENTS"],
+    "U3": ["ACTIONS_COST", "NUMERIC_FLUENTS", "INT_NUMBERS_IN_ACTIONS_COST", "REAL_NUMBERS_IN_ACTIONS_COST", "EVENTS"],
+    "U4": ["OVERSUBSCRIPTION", "CONTINUOUS_NUMBERS", "INT_NUMBERS_IN_OVERSUBSCRIPTION",
+           "REAL_NUMBERS_IN_OVERSUBSCRIPTION", "NON_LINEAR_CONTINUOUS_EFFECTS"],
+    "U5": ["CONTINUOUS_TIME", "DISCRETE_TIME", "DISCRETE_NUMBERS", "REAL_TYPE_DURATIONS", "INT_TYPE_DURATIONS",
+           "DECREASE_CONTINUOUS_EFFECTS"],
 }
 
 CONST = """CONSTANTS NF <- TabNF
@@ -44,7 +51,8 @@ CONST = """CONSTANTS NF <- TabNF
  NObj = 2
  FullBounds = %(full)s
 """
-MC_CFG = "SPECIFICATION Spec\n" + CONST + """VIEW ViewObjs
+MC_CFG = "SPECIFICATION Spec\n" + CONST + """ OperandPairs <- FirstPair
+VIEW ViewObjs
 INVARIANT LawOrder
 INVARIANT LawBounds
 INVARIANT LawHash
@@ -53,12 +61,15 @@ INVARIANT LawTables
 %(cross)sPROPERTY QueryPure
 PROPERTY RetLaws
 """
-ENUM_CFG = "INIT EnumInit\nNEXT EnumNext\n" + CONST + " Triples = %(triples)s\n"
-TRACE_CFG = "SPECIFICATION TraceSpec\n" + CONST + "INVARIANT Verdict\n"
+ENUM_CFG = "INIT EnumInit\nNEXT EnumNext\n" + CONST + " Triples = %(triples)s\n WithBounds = %(bounds)s\n"
+TRACE_CFG = "SPECIFICATION TraceSpec\n" + CONST + " HasRows = %(triples)s\n NBlk = %(nblk)d\nINVARIANT Verdict\n"
+NBLK = 64
 
 OPNAMES = {1: "==", 2: "<=", 3: "union", 4: "intersection", 5: "a <= a.union(b)", 6: "b <= a.union(b)",
            7: "a.intersection(b) <= a", 8: "a.intersection(b) <= b", 9: "upgrade both, then <="}
 CHUNK = 24
+FAIL_RE = re.compile(r'^"<<\\"FAIL\\", (\d+), \{(.*)\}>>"$')
+ITEM_RE = re.compile(r'<<(\d+), \\"([^"\\]*)\\", \\"([^"\\]*)\\", \\"([^"\\]*)\\">>')
 
 
 def versioning():
@@ -113,11 +124,13 @@ class Recorder:
         self.hvals = []
         self.excs = ["none"]
         self.eidx = {"none": 1}
+        self.args = {
+            kid: ([U[i] for i in range(len(U)) if m >> i & 1], (None if dv == 0 else dv)) for kid, (dv, m) in kinds.items()
+        }
 
     def mk(self, kid):
-        dv, m = self.kinds[kid]
-        feats = [self.U[i] for i in range(len(self.U)) if m >> i & 1]
-        return self.PK(feats, version=(None if dv == 0 else dv))
+        feats, version = self.args[kid]
+        return self.PK(feats, version=version)
 
     def obs(self, k):
         m = 0
@@ -222,7 +235,7 @@ def describe_kind(U, kinds, kid):
     return {"version": (None if dv == 0 else dv), "features": [U[i] for i in range(len(U)) if m >> i & 1]}
 
 
-def check_universe(ctx, name, U, full, triples, only=None, coverage=False):
+def check_universe(ctx, name, U, full, triples, bounds, only=None, coverage=False):
     """T1 + T2 + T3 for one feature universe.  `only` = list of (a, b, al) restricts the replay (--replay)."""
     V = versioning()
     d = ctx.sub(name)
@@ -232,7 +245,7 @@ def check_universe(ctx, name, U, full, triples, only=None, coverage=False):
     tpath = os.path.join(d, "tables.json")
     tlc.write_json(tpath, tab)
     cfgd = {"full": "TRUE" if full else "FALSE", "cross": "INVARIANT LawCross\n" if full else "",
-            "triples": "TRUE" if triples else "FALSE"}
+            "triples": "TRUE" if triples else "FALSE", "bounds": "TRUE" if bounds else "FALSE", "nblk": NBLK}
     # ---- G1: TLC enumerates kinds, pairs, scripts -------------------------------------
     kp, pp, sp = (os.path.join(d, f) for f in ("kinds.ndjson", "pairs.ndjson", "scripts.ndjson"))
     res = tlc.run_tlc("ProblemKindLatticeEnum", ENUM_CFG % cfgd, os.path.join(d, "enum"),
@@ -274,6 +287,7 @@ def check_universe(ctx, name, U, full, triples, only=None, coverage=False):
     lem = [[2] * nk for _ in range(nk)]
     eqm = [[2] * nk for _ in range(nk)]
     cases = []
+    rowrecs = []
     nsteps = 0
     if only is not None:
         want = set(only)
@@ -294,23 +308,30 @@ def check_universe(ctx, name, U, full, triples, only=None, coverage=False):
                     eqm[ia - 1][ib - 1] = s[7]
                 if s[6] == 0 and s[0] == 2:
                     lem[ia - 1][ib - 1] = s[7]
-        cases.append({"id": n + 1, "a": ia, "b": ib, "al": al, "st": st, "rows": p["rows"], "rx": rx, "ur": ur, "ir": ir})
+        rw = 0
+        if p["rows"]:
+            rowrecs.append({"ur": ur, "ir": ir, "rx": rx})
+            rw = len(rowrecs)
+        cases.append({"id": n + 1, "a": ia, "b": ib, "al": al, "st": st, "rw": rw})
         nsteps += len(st) + p["rows"]
         ctx.cov["evaluations"] += len(st) + (2 * len(groups[kver[ia]]) if p["rows"] else 0)
     if not cases:
         raise MachineryError("no case was replayed")
-    cpath, spath, epath, mpath = (os.path.join(d, f) for f in ("cases.ndjson", "states.ndjson", "excs.ndjson", "matrix.ndjson"))
+    cpath, spath, epath, mpath, rpath = (
+        os.path.join(d, f) for f in ("cases.ndjson", "states.ndjson", "excs.ndjson", "matrix.ndjson", "rows.ndjson")
+    )
     tlc.write_ndjson(cpath, cases)
+    tlc.write_ndjson(rpath, rowrecs)
     tlc.write_ndjson(spath, rec.states)
     tlc.write_ndjson(epath, rec.excs)
     tlc.write_ndjson(mpath, [{"le": lem[i], "eq": eqm[i]} for i in range(nk)])
     # ---- T3: TLC judges -----------------------------------------------------------------
     res = tlc.run_tlc("ProblemKindLatticeTrace", TRACE_CFG % cfgd, os.path.join(d, "judge"),
-                      env={"TABLES": tpath, "KINDS": kp, "STATES": spath, "EXCS": epath, "MATRIX": mpath, "CASES": cpath},
+                      env={"TABLES": tpath, "KINDS": kp, "STATES": spath, "EXCS": epath, "MATRIX": mpath, "CASES": cpath, "ROWS": rpath},
                       timeout=3000)
     if res.error or res.violated:
         raise MachineryError("ProblemKindLatticeTrace failed: %s %s" % (res.violated, res.error))
-    expected = nsteps + len(cases)
+    expected = nsteps + len(cases) + NBLK
     if res.distinct != expected:
         raise MachineryError("trace judge consumed %d states, expected %d" % (res.distinct, expected))
     ctx.add_tlc("judge %s" % name, res)
@@ -322,33 +343,38 @@ def check_universe(ctx, name, U, full, triples, only=None, coverage=False):
     )
     byid = {c["id"]: c for c in cases}
     nfail = 0
+    detailed = {}
     for line in res.stdout.splitlines():
         # the judge prints ToString(<<"FAIL", id, {<<step, clause, feature, extra>>, ...}>>) on one line
-        if not line.startswith('"<<\\"FAIL\\"'):
+        m = FAIL_RE.match(line)
+        if not m:
             continue
-        p = tlc.parse_value(line.strip()[1:-1].replace('\\"', '"'))
-        c = byid[p[1]]
-        for f in sorted(p[2]["$set"], key=lambda z: (z[0], z[1:])):
-            step, clause, feat, extra = f
+        c = byid[int(m.group(1))]
+        fails = sorted((int(x[0]),) + x[1:] for x in ITEM_RE.findall(m.group(2)))
+        if not fails or len(fails) != m.group(2).count("<<"):
+            raise MachineryError("cannot parse judge output line: %s" % line[:300])
+        for step, clause, feat, extra in fails:
             sig = "|".join(x for x in (clause, feat, extra) if x)
-            data = {"universe": U, "universe_name": name, "pair": [c["a"], c["b"], c["al"]],
-                    "a": describe_kind(U, kinds, c["a"]), "b": describe_kind(U, kinds, c["b"]),
-                    "same_object": bool(c["al"]), "clause": clause, "step": step}
+            nfail += 1
+            data = {"universe": U, "universe_name": name, "pair": [c["a"], c["b"], c["al"]], "clause": clause, "step": step}
+            query = "a.union(b) <= c / c <= a.intersection(b) for every c of the version"
             if step <= len(c["st"]):
                 s = c["st"][step - 1]
-                data["query"] = OPNAMES[s[0]] + (" (to version %d)" % s[1] if s[0] == 9 else "")
-                data["a_before"], data["b_before"] = decode_state(rec, s[2]), decode_state(rec, s[3])
-                data["a_after"], data["b_after"] = decode_state(rec, s[4]), decode_state(rec, s[5])
-                if s[6] != 0:
-                    data["raised"] = rec.excs[s[7] - 1]
-                elif s[0] in (3, 4):
-                    data["result"] = decode_state(rec, s[7])
-                else:
-                    data["result"] = bool(s[7])
-            else:
-                data["query"] = "a.union(b) <= c / c <= a.intersection(b) for every c of the version"
-            ctx.violation(sig, "ProblemKind %s: clause %s fails (%s)" % (data["query"], clause, ", ".join(x for x in (feat, extra) if x) or "-"), data)
-            nfail += 1
+                query = OPNAMES[s[0]] + (" (to version %d)" % s[1] if s[0] == 9 else "")
+            if detailed.get(sig, 0) < 3:  # full witness for the first occurrences of each signature only
+                detailed[sig] = detailed.get(sig, 0) + 1
+                data.update({"a": describe_kind(U, kinds, c["a"]), "b": describe_kind(U, kinds, c["b"]),
+                             "same_object": bool(c["al"]), "query": query})
+                if step <= len(c["st"]):
+                    data["a_before"], data["b_before"] = decode_state(rec, s[2]), decode_state(rec, s[3])
+                    data["a_after"], data["b_after"] = decode_state(rec, s[4]), decode_state(rec, s[5])
+                    if s[6] != 0:
+                        data["raised"] = rec.excs[s[7] - 1]
+                    elif s[0] in (3, 4):
+                        data["result"] = decode_state(rec, s[7])
+                    else:
+                        data["result"] = bool(s[7])
+            ctx.violation(sig, "ProblemKind %s: clause %s fails (%s)" % (query, clause, ", ".join(x for x in (feat, extra) if x) or "-"), data)
     mid = cases[len(cases) // 2]
     ctx.sample({"universe": name, "a": describe_kind(U, kinds, mid["a"]), "b": describe_kind(U, kinds, mid["b"]),
                 "steps <<op,w,preA,preB,postA,postB,status,res>>": mid["st"]})
@@ -357,22 +383,22 @@ def check_universe(ctx, name, U, full, triples, only=None, coverage=False):
 
 def run(ctx):
     q = ctx.quick
-    plan = [("U1", False, False)] if q else [("U1", True, True), ("U2", False, False), ("U3", False, False)]
+    # (universe, full lub/glb quantification in T1, third-kind rows, compound bound queries)
+    plan = [("U0", False, False, False)] if q else [("U1", True, True, True)] + [(u, True, False, True) for u in ("U2", "U3", "U4", "U5")]
     stats = {}
-    for i, (name, full, triples) in enumerate(plan):
-        stats[name] = check_universe(ctx, name, UNIVERSES[name], full, triples, coverage=(not q and i == 0))
+    for i, (name, full, triples, bounds) in enumerate(plan):
+        stats[name] = check_universe(ctx, name, UNIVERSES[name], full, triples, bounds, coverage=(not q and i == 0))
     ctx.notes["universes"] = stats
     ctx.cov["rule"] = (
         "T1: every pair of kinds over the universe (all declared versions and version=None), third kinds quantified "
         "inside the laws (%s). T2/T3: every ordered pair of kinds and every kind with itself as one object, emitted by TLC; "
-        "queries ==, <=, union, intersection on all pairs; a<=a|b, b<=a|b, a&b<=a, a&b<=b and upgrade-then-<= on pairs of one "
-        "version%s; each on fresh real objects with operand state recorded before and after. "
+        "queries ==, <=, union, intersection on all pairs, upgrade-then-<= on pairs of one version%s; each on fresh real objects with operand state recorded before and after. "
         "Non-trivial pair: two different kinds of one version with a <= b. Unspecified: == between kinds of different versions. "
         "Universes: %s." % (
             "quick: lub/glb leastness over one representative per Eq-class, justified by RepOK + EqCongruent" if q
-            else "U1: over all kinds of the version, plus the cross-version bound laws; U2, U3: representatives",
-            "" if q else "; U1: a|b<=c and c<=a&b for every third kind c of the version (all same-version triples)",
-            ", ".join("%s=%s" % (n, UNIVERSES[n]) for n, _, _ in plan))
+            else "lub/glb leastness over all kinds of the version, plus the cross-version bound laws",
+            "" if q else ", a<=a|b, b<=a|b, a&b<=a, a&b<=b on pairs of one version; U1: a|b<=c and c<=a&b for every third kind c of the version (all same-version triples)",
+            ", ".join("%s=%s" % (p[0], UNIVERSES[p[0]]) for p in plan))
     )
     ctx.cov["exhaustive"] = True
     ctx.assumptions += [
@@ -381,7 +407,7 @@ def run(ctx):
         "universe) are read from the real module: the property constrains them only through the laws checked in T1",
         "hash values are renamed injectively to small integers (equality is all the judge uses)",
         "== between kinds of different versions is not judged (the statement is silent); >= , < , > (functools.total_ordering) are out of scope",
-        "feature universes of 7 features; features outside the universe are counted, never interpreted",
+        "feature universes of 5-7 features; features outside the universe are counted, never interpreted",
     ]
 
 
@@ -390,7 +416,7 @@ def replay(ctx, rep):
     if "pair" not in d:
         print("replay: this finding is a T1 (design-level) counterexample; rerun ./check C33")
         return 0
-    check_universe(ctx, d.get("universe_name", "replay"), d["universe"], False, False, only=[tuple(d["pair"])])
+    check_universe(ctx, d.get("universe_name", "replay"), d["universe"], False, False, True, only=[tuple(d["pair"])])
     for v in ctx.violations:
         print("REPLAY %s: %s" % (v.sig, v.what))
     return 1 if any(v.sig == rep["signature"] for v in ctx.violations) else 0
